@@ -3,6 +3,7 @@ import Texel.Properties.C17
 import Texel.Proofs.NoTwice
 import Texel.Proofs.Total
 import Texel.Properties.C09
+import Texel.Proofs.GenRemoveseq
 /-! # C06 — snapping is total: no panic, no hang for any in-grid polygon
 
 Every Go panic site is an `Except.error` of the model and every Go loop a structural recursion or a recursion on explicit
@@ -72,6 +73,14 @@ theorem C06_total_up_to_kmp_ranges_partial (h : KmpRangesForward) (g : Grid) (hr
     (hlev : ∀ l ∈ levels, l ≤ g.depth) (e : String) (he : snapPolygonF g rings levels cfg = .error e) :
     (e = "outside-grid" ∧ insertAll g rings = none) ∨ ∃ r, kmpDeduplicateF r = .error e :=
   snapPolygonF_error (kmpNoDup_of_rangesForward h) g hres rings levels cfg hlev e he
+
+/-- **`RemoveSequences`, on the translated source** (`trgen removeseq`, `gen_removeSequences`): for every ring and every list of ranges that
+each run forward, the current `mapslicehelp.RemoveSequences` returns a sublist of the ring or panics on a slice bound; and it is the function the
+model uses (`removeSeqsF`), for all inputs. -/
+theorem C06_removeSequences_source (s : Array P) (es : List (Array P × (Int × Int))) :
+    Gen.Removeseq.removeSequences s es = removeSeqsF s es 0 ∧
+    ∀ out, Gen.Removeseq.removeSequences s es = .ok out → (∀ e ∈ es, e.2.1 ≤ e.2.2) → out.toList.Sublist s.toList :=
+  ⟨gen_removeSequences s es, fun out h hfw => gen_removeSequences_sublist s es out h hfw⟩
 
 -- non-vacuity (compiler-evaluated, the loop contains `while`): a ring walking `(2,0) (3,0)` back and forth twice records one forward range, [4, 5)
 #guard rangesForwardB #[(0,0),(2,0),(3,0),(2,0),(3,0),(2,0),(2,2),(0,2)] = true
